@@ -17,11 +17,16 @@ REQUIRED_OBS = ["histories", "faults_injected", "faulty_calls_that_raised", "arc
 FAULTS = ["missing", "open-EACCES", "open-EIO", "lstat-EACCES", "read-fails-at-0", "read-fails-midway", "writef-read-fails-at-0", "writef-read-fails-midway", "bad-arcname-writestr",
           "bad-arcname-writef", "writeall-missing",
           # sources and arguments that cannot be stored: the call itself has to say so (found by a bug hunt: they used to be accepted and to make close() fail)
-          "fifo-source", "ancient-mtime", "undecodable-name", "writef-past-eof", "nul-in-arcname"]
+          "fifo-source", "ancient-mtime", "undecodable-name", "writef-past-eof", "nul-in-arcname",
+          # third hunt: a read ended by KeyboardInterrupt (not an Exception); a source failing right after a prefix that leaves the CRC register
+          # unchanged (the shifted neighbour then passes its CRC); a tree with one entry in the middle that cannot be stored
+          "read-interrupted-at-0", "writef-read-interrupted-at-0", "read-fails-after-crc-neutral-prefix", "writef-read-fails-after-crc-neutral-prefix",
+          "writeall-unreadable-member", "writeall-undecodable-member"]
+CRC_NEUTRAL = bytes.fromhex("9d0ad96d")  # crc32 == 0: crc32(prefix + x) == crc32(x)
 RULE = ("write histories of 1..5 calls (write, writestr, writef, writeall) with ONE fault injected into call i: source missing (real), open raising EACCES/EIO or lstat "
         "raising EACCES (patched pathlib.Path for that path only), read raising after 0 or k bytes (faulty file object for write; caller-supplied BufferedIOBase for "
         "writef), name rejected (ValueError), sources and arguments that cannot be stored (FIFO, mtime before 1601, undecodable file name, file object positioned past its end, "
-        "NUL in the name); create and append sessions (the archive appended to holds 'old.txt'); symbolic links among the successful calls; followed by 0..2 further successful "
+        "NUL in the name), read() ended by KeyboardInterrupt, read failing right after a 4-byte prefix whose CRC-32 is zero (a shifted neighbour passes its CRC), writeall() of a tree with one unreadable / unstorable entry in the middle; create and append sessions (the archive appended to holds 'old.txt'); symbolic links among the successful calls; followed by 0..2 further successful "
         "writes; closed by context manager or explicitly. Oracle: the faulty call raised to the "
         "caller; for open/argument faults the closed archive holds exactly the successfully written members, intact (py7zr and reference reader), and the failed source "
         "is never opened or read again later in the session; for mid-read faults the closed file never opens successfully with wrong contents. Cell = (fault kind, "
@@ -38,6 +43,10 @@ def cases(rng, tier):
                     for dirbefore in ((False, True) if before else (False,)):
                         out.append({"fault": fault, "before": before, "after": after, "close": close, "chain": rng.choice(["LZMA2", "COPY", "DEFLATE", "ZSTD"]), "seed": rng.getrandbits(32),
                                     "header": rng.choice(["encoded", "raw"]), "dirbefore": dirbefore, "mode": "a" if (before + after) % 2 else "w", "links": fault.endswith("midway") or rng.random() < 0.2})
+    for c in out:
+        if "crc-neutral" in c["fault"]:
+            c["chain"] = ["COPY", "LZMA2"][c["seed"] % 2]
+            c["links"] = False
     if tier == "thorough":
         for _ in range(4000):
             out.append({"fault": rng.choice(FAULTS), "before": rng.randint(0, 3), "after": rng.randint(0, 2), "close": rng.choice(["ctx", "explicit"]), "dirbefore": rng.random() < 0.4,
@@ -47,11 +56,12 @@ def cases(rng, tier):
 
 
 class FaultyReader(io.BufferedIOBase):
-    def __init__(self, data, fail_at):
+    def __init__(self, data, fail_at, exc=None):
         self._b = io.BytesIO(data)
         self.fail_at = fail_at
         self.reads_after_failure = 0
         self.failed = False
+        self.exc = exc
 
     def read(self, n=-1):
         if self.failed:
@@ -59,6 +69,8 @@ class FaultyReader(io.BufferedIOBase):
             raise OSError(errno.EIO, "injected read error (again)")
         if self._b.tell() >= self.fail_at:
             self.failed = True
+            if self.exc is not None:
+                raise self.exc("injected interruption of read()")
             raise OSError(errno.EIO, "injected read error")
         if n is None or n < 0:
             n = len(self._b.getvalue())
@@ -86,6 +98,8 @@ class _FaultyFile:
     def read(self, n=-1):
         if self.real.tell() >= self.fail_at:
             self.state["read_failures"] += 1
+            if self.state.get("exc") is not None:
+                raise self.state["exc"]("injected interruption of read()")
             raise OSError(errno.EIO, "injected read error")
         return self.real.read(min(n if n and n > 0 else 1 << 30, max(1, self.fail_at - self.real.tell())))
 
@@ -119,15 +133,15 @@ def run_case(case):
             if state["failed"]:
                 state["opens_after"] += 1
             if state["armed"]:
-                if fault in ("open-EACCES", "open-EIO"):
+                if fault in ("open-EACCES", "open-EIO", "writeall-unreadable-member"):
                     state["failed"] = True
                     state["armed"] = False
                     raise OSError(errno.EACCES if fault == "open-EACCES" else errno.EIO, "injected open error", str(self))
-                if fault in ("read-fails-at-0", "read-fails-midway"):
+                if fault in ("read-fails-at-0", "read-fails-midway", "read-interrupted-at-0", "read-fails-after-crc-neutral-prefix"):
                     state["failed"] = True
                     state["armed"] = False
                     real = o_open(self, *a, **k)
-                    return _FaultyFile(real, 0 if fault == "read-fails-at-0" else state["fail_at"], state)
+                    return _FaultyFile(real, 0 if fault.endswith("at-0") else state["fail_at"], state)
         return o_open(self, *a, **k)
 
     def p_lstat(self, *a, **k):
@@ -221,6 +235,39 @@ def run_case(case):
                 elif fault in ("writef-read-fails-at-0", "writef-read-fails-midway"):
                     faulty_obj = FaultyReader(vdata, 0 if fault.endswith("at-0") else 30000)
                     z.writef(faulty_obj, "victim")
+                elif fault == "read-interrupted-at-0":
+                    with open(vpath, "wb") as f:
+                        f.write(vdata)
+                    state.update(victim=vpath, armed=True, fail_at=0, exc=KeyboardInterrupt)
+                    z.write(vpath, "victim")
+                elif fault == "writef-read-interrupted-at-0":
+                    faulty_obj = FaultyReader(vdata, 0, exc=KeyboardInterrupt)
+                    z.writef(faulty_obj, "victim")
+                elif fault == "read-fails-after-crc-neutral-prefix":
+                    vdata = CRC_NEUTRAL + vdata
+                    with open(vpath, "wb") as f:
+                        f.write(vdata)
+                    state.update(victim=vpath, armed=True, fail_at=len(CRC_NEUTRAL))
+                    z.write(vpath, "victim")
+                elif fault == "writef-read-fails-after-crc-neutral-prefix":
+                    vdata = CRC_NEUTRAL + vdata
+                    faulty_obj = FaultyReader(vdata, len(CRC_NEUTRAL))
+                    z.writef(faulty_obj, "victim")
+                elif fault in ("writeall-unreadable-member", "writeall-undecodable-member"):
+                    tree = os.path.join(src, "tree")
+                    os.makedirs(os.path.join(tree, "sub"))
+                    for nm_ in ("a.txt", "sub/b.txt", "z.txt"):
+                        with open(os.path.join(tree, nm_), "wb") as f:
+                            f.write(b"tree member " + nm_.encode())
+                    if fault == "writeall-unreadable-member":
+                        vpath = os.path.join(tree, "m.txt")
+                        with open(vpath, "wb") as f:
+                            f.write(vdata)
+                        state.update(victim=vpath, armed=True)
+                    else:
+                        with open(os.path.join(os.fsencode(tree), b"m\xff.txt"), "wb") as f:
+                            f.write(b"x")
+                    z.writeall(tree, "victim")
                 elif fault == "fifo-source":
                     fp_ = os.path.join(src, "pipe")
                     os.mkfifo(fp_)
@@ -276,7 +323,7 @@ def run_case(case):
             pathlib.Path.open, pathlib.Path.lstat = o_open, o_lstat
         obs["histories"] = 1
         # any failure of read() - also at the very first byte - is 'a source failing while being read'
-        midread = "read-fails" in fault
+        midread = "read-fails" in fault or "read-interrupted" in fault
         names = list(order)  # members in call order, directory entries included
         tag = "%s in call %d, %d calls after, close=%s, chain %s" % (fault, case["before"], case["after"], case["close"], case["chain"])
         # retried behind the caller's back?
@@ -285,7 +332,7 @@ def run_case(case):
                 tag, state["opens_after"], faulty_obj.reads_after_failure if faulty_obj else 0)})
         with open(arc, "rb") as f:
             data = f.read()
-        midread_hint = "read-fails" in fault
+        midread_hint = midread
         py = ref = None
         try:
             n, got = pz.read_mem(data)
